@@ -1081,6 +1081,9 @@ class EnumGen:
             out += self.enum_item(tuple(e.extra.get('base_derives', ('Debug', 'PartialEq', 'Clone'))))
             return '\n'.join(out) + '\n'
         out = ['use super::support::*;', 'use std::sync::atomic::Ordering;']
+        if e.extra.get('import_derives_by_name'):
+            # `use strum::EnumIter;` imports the derive macro AND whatever else the crate exports under that name
+            out.append('#[allow(unused_imports)] use %s::{%s};' % (self.sp, ', '.join(e.derives)))
         if self.sp != 'strum' and not self.sp.startswith('::'):
             pass
         out += self.enum_item(tuple(e.extra.get('base_derives', ('Debug', 'PartialEq', 'Clone'))))
